@@ -2,34 +2,90 @@
 //  (a) every string of <= 4 characters over a 22-character alphabet (quotes, escapes, comment starters, digits,
 //      exponent, multi-byte characters incl. non-ASCII numeric ones, whitespace, operators), and
 //  (b) every sequence of <= 5 tokens over a 24-token SQL vocabulary:
-// it returns Ok or Err -- no panic, no slice inside a character, no hang (each call under a deadline).
+// it returns Ok or Err -- no panic, no slice inside a character, no hang (each group runs in a child process that is
+// killed when it makes no progress for 60 s).
 use super::*;
 
 //@fn parser.rs parse (Tokenizer::tokenize + Parser::parse_statements)
 
-fn with_deadline(what: &str, f: impl FnOnce() + Send + 'static) {
-    let (tx, rx) = std::sync::mpsc::channel();
+/// Runs one enumeration group in a CHILD PROCESS (this test binary re-invoked with VERIF_PARSE_GROUP set) and watches its
+/// progress lines: a hang is a stall of 60 s without progress (a single parse of a <= 40 byte input takes microseconds,
+/// so load on the machine cannot cause a false alarm), and the child is KILLED on a stall so that a tokenizer that never
+/// advances cannot exhaust memory.  A panic in the child ends it with a non-zero status and its message is passed on.
+fn run_group_in_child(test_name: &str, group: &str) {
+    use std::io::BufRead;
+    let exe = std::env::current_exe().expect("test binary path");
+    let mut child = std::process::Command::new(exe)
+        .args(["--exact", test_name, "--nocapture", "--test-threads", "1"])
+        .env("VERIF_PARSE_GROUP", group)
+        .stdout(std::process::Stdio::piped())
+        .stderr(std::process::Stdio::piped())
+        .spawn()
+        .expect("spawn child");
+    let stdout = child.stdout.take().unwrap();
+    let stderr = child.stderr.take().unwrap();
+    let (tx, rx) = std::sync::mpsc::channel::<Option<String>>();
+    let tx2 = tx.clone();
     std::thread::spawn(move || {
-        let r = std::panic::catch_unwind(std::panic::AssertUnwindSafe(f));
-        let _ = tx.send(r.is_ok());
+        for line in std::io::BufReader::new(stdout).lines().map_while(|l| l.ok()) {
+            let _ = tx.send(Some(line));
+        }
+        let _ = tx.send(None);
     });
-    match rx.recv_timeout(std::time::Duration::from_secs(20)) {
-        Ok(true) => {}
-        Ok(false) => panic!("parse panicked on an input of group {what}"),
-        Err(_) => panic!("parse did not return within 20 s on an input of group {what}"),
+    let err_lines = std::sync::Arc::new(std::sync::Mutex::new(Vec::<String>::new()));
+    let err2 = err_lines.clone();
+    std::thread::spawn(move || {
+        for line in std::io::BufReader::new(stderr).lines().map_while(|l| l.ok()) {
+            let mut g = err2.lock().unwrap();
+            if g.len() < 40 {
+                g.push(line);
+            }
+        }
+        drop(tx2);
+    });
+    let mut last = String::new();
+    loop {
+        match rx.recv_timeout(std::time::Duration::from_secs(60)) {
+            Ok(Some(line)) => {
+                if line.contains("VERIF-PROGRESS") {
+                    last = line;
+                }
+            }
+            Ok(None) => break,
+            Err(_) => {
+                let _ = child.kill();
+                let _ = child.wait();
+                panic!("parse did not return: no progress for 60 s in group {group} (last progress: {last})");
+            }
+        }
     }
+    let status = child.wait().expect("wait child");
+    if !status.success() {
+        let msg = err_lines.lock().unwrap().iter().filter(|l| l.contains("parse panicked") || l.contains("panicked at")).cloned().collect::<Vec<_>>().join(" | ");
+        panic!("parse panicked on an input of group {group}: {msg}");
+    }
+}
+
+fn child_group() -> Option<String> {
+    std::env::var("VERIF_PARSE_GROUP").ok()
 }
 
 #[test]
 fn c15_parse__total_on_short_strings__nat() {
     let alphabet: Vec<char> = "a1 '\"-/*.eé$;\\\n:x(+😀²٣".chars().collect();
     let prefixes = ["", "select ", "select '", "select 1 from t where a like "];
-    for (pi, prefix) in prefixes.iter().enumerate() {
-        let alphabet = alphabet.clone();
-        let prefix = prefix.to_string();
-        with_deadline(&format!("chars/prefix#{pi}"), move || {
+    match child_group() {
+        None => {
+            for pi in 0..prefixes.len() {
+                run_group_in_child("parser::verif_kani::c15_parse__total_on_short_strings__nat", &format!("chars/prefix#{pi}"));
+            }
+        }
+        Some(group) => {
+            let Some(pi) = group.strip_prefix("chars/prefix#").and_then(|x| x.parse::<usize>().ok()) else { return };
+            let prefix = prefixes[pi];
             let n = alphabet.len();
             let mut idx = [0usize; 4];
+            let mut done = 0usize;
             for len in 0..=4usize {
                 let total = n.pow(len as u32);
                 for mut k in 0..total {
@@ -37,17 +93,21 @@ fn c15_parse__total_on_short_strings__nat() {
                         *slot = k % n;
                         k /= n;
                     }
-                    let mut s = prefix.clone();
+                    let mut s = prefix.to_string();
                     for &i in idx.iter().take(len) {
                         s.push(alphabet[i]);
                     }
+                    if done % 2000 == 0 {
+                        println!("VERIF-PROGRESS {done} next input {s:?}");
+                    }
+                    done += 1;
                     let r = std::panic::catch_unwind(|| {
                         let _ = parse(&s);
                     });
                     assert!(r.is_ok(), "parse panicked on {s:?}");
                 }
             }
-        });
+        }
     }
 }
 
@@ -57,9 +117,16 @@ fn c15_parse__total_on_token_sequences__nat() {
         "select", "from", "where", "(", ")", ",", "1", "a", "*", "and", "not", "-", "'x'", "as", "join", "on", "group by", "order by",
         "limit", "null", "case", "::", ".", "=",
     ];
-    for first in 0..vocab.len() {
-        with_deadline(&format!("tokens/first={}", vocab[first]), move || {
+    match child_group() {
+        None => {
+            for first in 0..vocab.len() {
+                run_group_in_child("parser::verif_kani::c15_parse__total_on_token_sequences__nat", &format!("tokens/first#{first}"));
+            }
+        }
+        Some(group) => {
+            let Some(first) = group.strip_prefix("tokens/first#").and_then(|x| x.parse::<usize>().ok()) else { return };
             let n = vocab.len();
+            let mut done = 0usize;
             for len in 0..=4usize {
                 let total = n.pow(len as u32);
                 for mut k in 0..total {
@@ -69,13 +136,17 @@ fn c15_parse__total_on_token_sequences__nat() {
                         s.push_str(vocab[k % n]);
                         k /= n;
                     }
+                    if done % 2000 == 0 {
+                        println!("VERIF-PROGRESS {done} next input {s:?}");
+                    }
+                    done += 1;
                     let r = std::panic::catch_unwind(|| {
                         let _ = parse(&s);
                     });
                     assert!(r.is_ok(), "parse panicked on {s:?}");
                 }
             }
-        });
+        }
     }
 }
 
